@@ -47,6 +47,11 @@ TripleSmall(x) == Seq3(FilesSmall)
 
 (* pairs in which duplicates can arise, for --allow-multiple-definition *)
 PairDup(x) == Seq2({File1(k, r) : k \in RegKinds, r \in {R(d, "default") : d \in {"strong", "unique", "weak", "common4", "undef"}}})
+(* three sizes of COMMON definitions of one name in every order (with weak definitions and references in
+   between): the largest must win whatever the order - 3 files (quick) and 4 files (thorough) *)
+CommonRecs == {None} \cup {R(d, "default") : d \in {"undef", "weak", "common4", "common8", "common16"}}
+Common3(x) == Seq3({File1("obj", r) : r \in CommonRecs})
+Common4(x) == Seq4({File1("obj", r) : r \in CommonRecs})
 (* a tiny family used with TLC's (slow) coverage statistics to show that every action is exercised *)
 Tiny(x) == Seq3({File1(k, r) : k \in {"obj", "member"}, r \in {None, R("undef", "default"), R("strong", "default")}})
 
@@ -98,6 +103,8 @@ SpaceOf(fam) ==
       [] fam = "Wrap2" -> Wrap2(0)
       [] fam = "PairDup" -> PairDup(0)
       [] fam = "Tiny" -> Tiny(0)
+      [] fam = "Common3" -> Common3(0)
+      [] fam = "Common4" -> Common4(0)
       [] fam = "Arch3Q" -> Arch3Q(0)
       [] fam = "Arch2U" -> Arch2U(0)
       [] fam = "Arch3T" -> Arch3T(0)
